@@ -722,7 +722,12 @@ func runTimer(tc timerCase) (f *fail) {
 		srv.Close()
 	}()
 	_ = mediaSeen
+	stalledReq, stalled := strings.CutPrefix(tc.Peer, "stalled-reader:")
+	if stalled {
+		env.Net.DialRecvBuf = 2048 // a few packets fill the peer's receive buffer
+	}
 	peer, err := env.Dial(nil)
+	env.Net.DialRecvBuf = 0
 	if err != nil {
 		return &fail{"timer/harness/dial", err.Error()}
 	}
@@ -859,6 +864,57 @@ func runTimer(tc timerCase) (f *fail) {
 		timeout = read
 	}
 	period := time.Second // Server.checkStreamPeriod
+	if stalled {
+		// the peer stops reading; the stream writes until the server's writer blocks in a socket write;
+		// the peer then sends one more request and stays silent. Within the write timeout (plus the
+		// session timeout and a check period) the session must have ended, exactly once, and the
+		// connection must have been closed - whatever the request was.
+		for k := 0; k < 40; k++ {
+			pkt := &rtp.Packet{Header: rtp.Header{Version: 2, PayloadType: 96, SequenceNumber: uint16(100 + k), Timestamp: uint32(k) * 3000, SSRC: 0x77}, Payload: make([]byte, 1000)}
+			app.Stream.WritePacketRTP(app.Stream.Desc.Medias[0], pkt) //nolint:errcheck
+		}
+		sysx.Settle()
+		var idx int
+		for i, a := range alphabet {
+			if a.Name == stalledReq {
+				idx = i
+			}
+		}
+		if err := peer.Send(buildRequest(Step{Req: idx, Sess: "right"}, sess)); err != nil {
+			return &fail{name + "/harness/send", err.Error()}
+		}
+		// bound: the blocked media write and the answer to the request may each take one WriteTimeout, then
+		// the silent connection its read / session timeout (the statement fixes no tighter figure for this chain)
+		bound := 2*srv.WriteTimeout + idle + read + period + 2*time.Second
+		env.Advance(bound)
+		if !sysx.WaitFor(closed) {
+			extra := 0
+			for ; extra < 120 && !closed(); extra++ {
+				env.Advance(time.Second)
+			}
+			var evs []string
+			for _, e := range env.Log.Snapshot() {
+				if e.Kind != "request" && e.Kind != "response" {
+					evs = append(evs, fmt.Sprint(e.Kind, ":", e.Info, ":", e.Err))
+				}
+			}
+			diag := fmt.Sprintf(" | after %d more seconds closed=%v; callbacks: %v; library goroutines: %v", extra, closed(), evs, sysx.LibGoroutines())
+			return &fail{name + "/stalled-reader-session-not-closed", fmt.Sprintf("the reader stopped reading, the server's writer blocked, the peer sent %s; virtual time advanced by %v (2 x WriteTimeout %v + IdleTimeout + ReadTimeout + check period): the session is still in state %v (%+v)%s", stalledReq, bound, srv.WriteTimeout, ssPtr.State(), tc, diag)}
+		}
+		n := 0
+		for _, e := range env.Log.Snapshot() {
+			if e.Kind == "session-close" && e.Session == ssPtr {
+				n++
+			}
+		}
+		if n != 1 {
+			return &fail{name + "/session-closed-more-than-once", fmt.Sprintf("%d OnSessionClose callbacks (%+v)", n, tc)}
+		}
+		if !peer.DrainEOF() {
+			return &fail{name + "/stalled-reader-connection-not-closed", fmt.Sprintf("the session ended but the server keeps the connection of the stalled reader open (%+v)", tc)}
+		}
+		return nil
+	}
 	switch tc.Peer {
 	case "live":
 		// follow the protocol for 5 timeout lengths: keep-alive at the advertised interval (never later than
@@ -945,7 +1001,7 @@ func main() {
 		})
 	}
 	run := evid.New("C02", "model_checking")
-	run.Rule("state = canonical key (state of the addressed session per the reference machine, its set-up medias, transport and announced media count, whether the connection is bound to it, whether the known id is still valid, number of live sessions) reached by the shortest request history; transition = that history replayed on a fresh real server plus one request from the alphabet (18 requests + 5 of them refused by the application's handler with 461 and no error, x Session header {right, absent, wrong}); BFS to depth 4 (quick) / 6 (thorough) per configuration (handler subsets {all, norecord, nopause, describeonly} x UDP {off,on}); every trace runs on the implementation. non-trivial = history of length >= 2; plus the timer grid {tcp-play, udp-play, udp-record, tcp-record} x {live, silent} x (IdleTimeout, ReadTimeout) in {(6,2),(10,10),(60,10)} s under virtual time")
+	run.Rule("state = canonical key (state of the addressed session per the reference machine, its set-up medias, transport and announced media count, whether the connection is bound to it, whether the known id is still valid, number of live sessions) reached by the shortest request history; transition = that history replayed on a fresh real server plus one request from the alphabet (18 requests + 5 of them refused by the application's handler with 461 and no error, x Session header {right, absent, wrong}); BFS to depth 4 (quick) / 6 (thorough) per configuration (handler subsets {all, norecord, nopause, describeonly} x UDP {off,on}); every trace runs on the implementation. non-trivial = history of length >= 2; plus a TCP reader that stops reading (server's writer blocked in a socket write) and then sends one of {PAUSE, GET_PARAMETER, TEARDOWN, PLAY, SETUP, OPTIONS, RECORD}: the session must end exactly once and the connection be closed within 2 x WriteTimeout + IdleTimeout + ReadTimeout + a check period; plus the timer grid {tcp-play, udp-play, udp-record, tcp-record} x {live, silent} x (IdleTimeout, ReadTimeout) in {(6,2),(10,10),(60,10)} s under virtual time")
 	run.Assume("reference machine = DESIGN.md Appendix A: L cells must succeed (<400) with the stated next state, I cells must fail (>=400) with the state unchanged, E cells may do either but consistently; the status code itself is never prescribed")
 	run.Assume("connection liveness after each response is observed with an OPTIONS probe (deterministic: the server handles one request at a time and closes right after a response produced together with an error); a connection closed after a response < 400 is a violation")
 	run.Assume("a session must end when its last connection goes away unless it streams (play/record) over UDP; the harness keeps one live connection at a time")
@@ -1099,6 +1155,11 @@ func main() {
 				tjobs = append(tjobs, job{Kind: "timer", Timers: []timerCase{tc}})
 			}
 		}
+	}
+	for _, rq := range []string{"PAUSE", "GET_PARAMETER", "TEARDOWN", "PLAY", "SETUP1-play-tcp", "OPTIONS", "RECORD"} {
+		tc := timerCase{"tcp-play", "stalled-reader:" + rq, 10, 10}
+		tcs = append(tcs, tc)
+		tjobs = append(tjobs, job{Kind: "timer", Timers: []timerCase{tc}})
 	}
 	tres := evid.RunJobs(tjobs, 16, 3*time.Minute)
 	for i, r := range tres {
